@@ -233,25 +233,33 @@ Fixpoint close_iter (k : nat) (ok : nat -> bool) (gs : list cgate) (sn : list na
             if Nat.eqb (length sn') (length sn) then sn else close_iter k' ok gs sn'
   end.
 
-(* uncompute(): returns the set `uncomputed` *)
-Definition uncompute (st : cst) : res (list nat * cst) :=
+(* uncompute(): returns the set `uncomputed`.  [act] is marked_ancillas - blocked:
+   a marked ancilla one of whose computing gates is controlled by an ancilla that
+   has been cleaned in the meantime is left to uncompute_all *)
+Definition uncompute_with (blocked : list nat) (st : cst) : res (list nat * cst) :=
   match st_marked st with
   | [] => Ok ([], st)
   | _ =>
     let marked := st_marked st in
+    let act := sdiff marked blocked in
     let rc := rev (st_comp st) in
-    let replay := filter (fun g => mem_nat (tgt g) marked) rc in
-    let new_gates_comp := filter (fun g => negb (mem_nat (tgt g) marked)) rc in
+    let replay := filter (fun g => mem_nat (tgt g) act) rc in
+    let new_gates_comp := filter (fun g => negb (mem_nat (tgt g) act)) rc in
     let uncomputed := fold_left (fun u g => sadd (tgt g) u) replay [] in
     let* S1 := fold_left (fun r g => let* st' := r in append_obj g st') replay (Ok st) in
     let still0 := fold_left (fun s g => fold_left (fun s c => sadd c s) (ctrls g) s) new_gates_comp [] in
     let still := close_iter (S (st_nq S1)) (fun _ => true) (st_gates S1) still0 in
-    let free' := fold_left (fun f x => sadd x f) marked (st_free S1) in
-    let res' := fold_left (fun r x => if mem_nat x still then sadd x r else r) marked (st_res S1) in
+    let free' := fold_left (fun f x => sadd x f) act (st_free S1) in
+    let res' := fold_left (fun r x => if mem_nat x still then sadd x r else r) act (st_res S1) in
     Ok (uncomputed,
         set_comp (rev new_gates_comp)
           (set_marked (sdiff marked uncomputed) (set_res res' (set_free free' S1))))
   end.
+Definition blocked_of (st : cst) : list nat :=
+  fold_left (fun b g =>
+    if mem_nat (tgt g) (st_marked st) && existsb (fun c => mem_nat c (st_free st)) (ctrls g)
+    then sadd (tgt g) b else b) (st_comp st) [].
+Definition uncompute (st : cst) : res (list nat * cst) := uncompute_with (blocked_of st) st.
 
 (* uncompute_all(keep) *)
 Definition uncompute_all (keep : list nat) (st : cst) : res cst :=
